@@ -734,26 +734,30 @@ func c06Handoff(r *core.Report) {
 	}
 	info := f.Pkg.TypesInfo
 	n := 0
-	ast.Inspect(f.Body, func(m ast.Node) bool {
-		s, ok := m.(*ast.SendStmt)
-		if !ok || !strings.Contains(core.ExprStr(s.Chan), "fullBufferWriterChan") {
-			return true
+	// Push, its closures and the helpers of the package it calls (the hand-off may live in a helper)
+	for _, fn := range pkgScope(p, f, 2) {
+		fn := fn
+		if fn.Body == nil {
+			continue
 		}
-		n++
-		cl, ok := core.Unparen(s.Value).(*ast.CompositeLit)
-		if !ok {
-			r.Undecided(rule, fmt.Sprintf("%s#send@%d", f.Key, n), pos(r, s), "sent value is not a composite literal")
-			return true
-		}
-		for _, el := range cl.Elts {
-			kv, ok := el.(*ast.KeyValueExpr)
-			if !ok || core.ExprStr(kv.Key) != "Values" {
-				continue
+		ast.Inspect(fn.Body, func(m ast.Node) bool {
+			if _, isLit := m.(*ast.FuncLit); isLit {
+				return false
+			}
+			s, ok := m.(*ast.SendStmt)
+			if !ok || !strings.Contains(core.ExprStr(s.Chan), "fullBufferWriterChan") {
+				return true
+			}
+			n++
+			val := structFieldExpr(fn, s.Value, "Values")
+			if val == nil {
+				r.Undecided(rule, fmt.Sprintf("%s#send@%d", f.Key, n), pos(r, s), "sent value is not a composite literal (or a local holding one) with a Values field")
+				return true
 			}
 			fresh := false
-			if c, ok := core.Unparen(kv.Value).(*ast.CallExpr); ok {
-				if fn := core.Callee(info, c); fn != nil {
-					if t := p.ByObj[fn]; t != nil && allocatesCopy(t) {
+			if c, ok := core.Unparen(val).(*ast.CallExpr); ok {
+				if fnc := core.Callee(info, c); fnc != nil {
+					if t := p.ByObj[fnc]; t != nil && allocatesCopy(t) {
 						fresh = true
 					}
 				}
@@ -761,14 +765,34 @@ func c06Handoff(r *core.Report) {
 					fresh = true
 				}
 			}
-			r.Check(fresh, rule, fmt.Sprintf("%s#send@%d-values-copied", f.Key, n), pos(r, kv), "the batch handed to the background writer is a fresh copy",
+			r.Check(fresh, rule, fmt.Sprintf("%s#send@%d-values-copied", f.Key, n), pos(r, val), "the batch handed to the background writer is a fresh copy",
 				"the batch handed to the background goroutine aliases the accumulator slice, which is cleared/reused by Push afterwards")
-		}
-		return true
-	})
+			return true
+		})
+	}
 	if n == 0 {
 		r.Undecided(rule, f.Key+"#send", posP(r, f.Pos()), "send on fullBufferWriterChan not found")
 	}
+}
+
+// structFieldExpr: the expression given to `field` in a keyed struct literal e, or in the literal a local e was
+// assigned exactly once (and never modified field-wise).
+func structFieldExpr(fn *core.Func, e ast.Expr, field string) ast.Expr {
+	e = core.Unparen(e)
+	if cl, ok := e.(*ast.CompositeLit); ok {
+		for _, el := range cl.Elts {
+			if kv, ok := el.(*ast.KeyValueExpr); ok && core.ExprStr(kv.Key) == field {
+				return kv.Value
+			}
+		}
+		return nil
+	}
+	if id, ok := e.(*ast.Ident); ok {
+		if v, isVar := fn.Pkg.TypesInfo.Uses[id].(*types.Var); isVar && !v.IsField() {
+			return core.LiteralFieldOf(fn, v, field)
+		}
+	}
+	return nil
 }
 
 // allocatesCopy: the function makes a new slice and copies its argument into it (clone helper).
@@ -800,15 +824,10 @@ func c06PartialFlushGuard(r *core.Report) {
 		return
 	}
 	info := f.Pkg.TypesInfo
+	var cur *core.Func
 	keyOfLit := func(e ast.Expr) types.Object {
-		cl, ok := core.Unparen(e).(*ast.CompositeLit)
-		if !ok {
-			return nil
-		}
-		for _, el := range cl.Elts {
-			if kv, ok := el.(*ast.KeyValueExpr); ok && core.ExprStr(kv.Key) == "Key" {
-				return core.ObjOf(info, kv.Value)
-			}
+		if kx := structFieldExpr(cur, e, "Key"); kx != nil {
+			return core.ObjOf(info, kx)
 		}
 		return nil
 	}
@@ -822,6 +841,7 @@ func c06PartialFlushGuard(r *core.Report) {
 	}
 	for _, fn := range scope {
 		g := r.Prog.Graph(fn)
+		cur = fn
 		for _, n := range stmtNodes(g) {
 			// (a) direct flushes
 			ast.Inspect(n.Ast, func(m ast.Node) bool {
